@@ -45,7 +45,7 @@ Verify each one yourself: apply patch -> run the full test suite (must still sho
 Finish with `git checkout -- src` so the worktree sources are unmodified (the seeded/ directory stays, untracked). Final report: for each change one line: what it is, which file, what it needs to manifest, and whether all verifications succeeded.
 
 @@EXTRA@@"""
-EXTRA_TEXT = f"""ADDITIONAL INSTRUCTIONS FOR THIS ROUND: earlier rounds already produced the following changes for this property; produce three that are DIFFERENT IN KIND from all of them (not variations):
+EXTRA_TEXT = f"""ADDITIONAL INSTRUCTIONS FOR THIS ROUND: earlier rounds already produced the following changes for this property; produce {NCH} that are DIFFERENT IN KIND from all of them (not variations):
 {chr(10).join(earlier) if earlier else '  (none)'}
 Favour these styles, one each if you can: (a) state carried across calls or objects within one process (caches, memoisation, module-level or class-level defaults, mutated shared arguments, objects reused after an earlier failure); (b) two cooperating sites in different functions or files that each look harmless alone; (c) a numeric / size / type boundary or an unusual-but-legal option combination or input form (symbolic links, read-only or strided arrays, numpy scalars, unusual but legal file layouts, timezone-aware values, documented `None` parameters ...). Shared utility modules (src/gambit/util/*.py, src/gambit/seq.py, src/gambit/sigs/base.py, src/gambit/cli/common.py, ...) are fair game as long as the property above is what breaks. If while exploring you notice a defect of the UNMODIFIED tree that violates the property, mention it at the end of your report with the exact reproducing input (do not use it as a seed).
 """
